@@ -104,6 +104,16 @@ theorem memberTok_ok (names : List Named) (sc : Scope) (p : Program) (g : Nat) :
     · exact all_nil
   · exact all_nil
 
+theorem waveParams_ok (names : List Named) (t : Target) (sc : Scope) (p : Program) (f : Nat) :
+    All (DeclStrict names) (waveParams t sc p f) := by
+  unfold waveParams
+  exact all_ite (all_map fun _ _ => trivial) all_nil
+
+theorem waveArgs_ok (names : List Named) (t : Target) (sc : Scope) (p : Program) (f : Nat) :
+    All (DeclStrict names) (waveArgs t sc p f) := by
+  unfold waveArgs
+  exact all_ite (all_map fun _ _ => trivial) all_nil
+
 theorem useToks_ok (t : Target) (names : List Named) (sc : Scope) (p : Program) (r : Ref) :
     All (DeclStrict names) (useToks t sc names p r) := by
   cases r <;> simp only [useToks]
@@ -114,7 +124,7 @@ theorem useToks_ok (t : Target) (names : List Named) (sc : Scope) (p : Program) 
   case func k =>
     split
     · exact all_nil
-    · exact all_append (all_cons trivial all_nil) (all_ite (all_map fun _ _ => trivial) all_nil)
+    · exact all_append (all_append (all_cons trivial all_nil) (waveArgs_ok _ _ _ _ _)) (all_ite (all_map fun _ _ => trivial) all_nil)
   case loc k => exact all_cons trivial all_nil
   case enumVal v => exact all_cons trivial all_nil
   case cbMember c i =>
@@ -124,6 +134,7 @@ theorem useToks_ok (t : Target) (names : List Named) (sc : Scope) (p : Program) 
   case structTy k => exact all_cons trivial all_nil
   case enumTy k => exact all_cons trivial all_nil
   case nothing => exact all_nil
+  case wave c => exact all_ite (all_cons trivial all_nil) all_nil
 
 theorem bodyToks_ok (t : Target) (names : List Named) (sc : Scope) (p : Program) (body : List BTok) :
     All (DeclStrict names) (bodyToks t sc names p body) := by
@@ -154,8 +165,8 @@ theorem defToks_ok (t : Target) (names : List Named) (p : Program) (d : Def) :
         (memberDecls_ok names _ _ _ (fun _ _ => by simp) _ _)) (all_cons trivial all_nil)
     · exact all_append (all_append (all_cons trivial (all_cons trivial all_nil))
         (memberDecls_ok names _ _ _ (fun _ _ => by simp) _ _)) (all_cons trivial all_nil)
-  · exact all_append (all_append (all_append (all_append (all_cons (rfl) (all_cons trivial all_nil))
-      (all_map fun _ _ => rfl))
+  · exact all_append (all_append (all_append (all_append (all_append (all_cons (rfl) (all_cons trivial all_nil))
+      (all_map fun _ _ => rfl)) (waveParams_ok _ _ _ _ _))
       (all_ite (all_flatMap fun g _ => all_append (typeToks_ok _ _ _ _) (all_cons (rfl) all_nil)) all_nil))
       (bodyToks_ok _ _ _ _ _)) (all_cons trivial all_nil)
 
@@ -195,14 +206,15 @@ theorem mslEpilogue_ok (names : List Named) (p : Program) : All (DeclStrict name
       exact all_append (all_append (all_cons trivial (all_cons trivial all_nil))
         (all_flatMap fun g _ => all_append (typeToks_ok _ _ _ _) (all_cons (rfl) all_nil))) (all_cons trivial all_nil)
     · unfold wrapperParams
-      refine all_append ?_ (all_flatMap fun i _ => all_cons trivial (all_cons trivial all_nil))
+      refine all_append (all_append ?_ (all_flatMap fun i _ => all_cons trivial (all_cons trivial all_nil)))
+        (waveParams_ok _ _ _ _ _)
       split
       · exact all_cons (rfl) all_nil
       · exact all_nil
     · unfold wrapperLocals
       exact all_flatMap fun g _ => all_ite all_nil (all_cons (rfl) all_nil)
     · unfold wrapperCall
-      refine all_append (all_append (all_cons trivial all_nil) ?_) ?_
+      refine all_append (all_append (all_append (all_cons trivial all_nil) ?_) (waveArgs_ok _ _ _ _ _)) ?_
       · split
         · exact all_cons trivial all_nil
         · exact all_nil
@@ -306,6 +318,24 @@ theorem memberTok_file (t : Target) (sc : Scope) (p : Program) (g : Nat) : All (
     · exact all_nil
   · exact all_nil
 
+theorem fileOk_gen {t : Target} {p : Program} {sc : Scope} {k n g : String} : FileOk t p (.decl sc k n (.gen g)) := by
+  unfold FileOk
+  split
+  · rename_i heq
+    injection heq with _ _ _ h4
+    cases h4
+  · trivial
+
+theorem waveParams_file (t' t : Target) (sc : Scope) (p : Program) (f : Nat) :
+    All (FileOk t' p) (waveParams t sc p f) := by
+  unfold waveParams
+  exact all_ite (all_map fun _ _ => fileOk_gen) all_nil
+
+theorem waveArgs_file (t' t : Target) (sc : Scope) (p : Program) (f : Nat) :
+    All (FileOk t' p) (waveArgs t sc p f) := by
+  unfold waveArgs
+  exact all_ite (all_map fun _ _ => trivial) all_nil
+
 theorem useToks_file (t : Target) (names : List Named) (sc : Scope) (p : Program) (r : Ref) :
     All (FileOk t p) (useToks t sc names p r) := by
   cases r <;> simp only [useToks]
@@ -316,7 +346,7 @@ theorem useToks_file (t : Target) (names : List Named) (sc : Scope) (p : Program
   case func k =>
     split
     · exact all_nil
-    · exact all_append (all_cons trivial all_nil) (all_ite (all_map fun _ _ => trivial) all_nil)
+    · exact all_append (all_append (all_cons trivial all_nil) (waveArgs_file _ _ _ _ _)) (all_ite (all_map fun _ _ => trivial) all_nil)
   case loc k => exact all_cons trivial all_nil
   case enumVal v => exact all_cons trivial all_nil
   case cbMember c i =>
@@ -326,6 +356,7 @@ theorem useToks_file (t : Target) (names : List Named) (sc : Scope) (p : Program
   case structTy k => exact all_cons trivial all_nil
   case enumTy k => exact all_cons trivial all_nil
   case nothing => exact all_nil
+  case wave c => exact all_ite (all_cons trivial all_nil) all_nil
 
 theorem bodyToks_file (t : Target) (names : List Named) (f : Nat) (p : Program) (body : List BTok) :
     All (FileOk t p) (bodyToks t (.func f) names p body) := by
@@ -390,8 +421,8 @@ theorem defToks_file (t : Target) (names : List Named) (p : Program) (d : Def) (
         (memberDecls_all _ _ _ (fun _ _ => trivial) _ _)) (all_cons trivial all_nil)
   | func o n ps body entry =>
     simp only
-    refine all_append (all_append (all_append (all_append (all_cons (Or.inr ?_) (all_cons trivial all_nil))
-      (all_map fun _ _ => fileOk_of_not_file (fun _ => by simp)))
+    refine all_append (all_append (all_append (all_append (all_append (all_cons (Or.inr ?_) (all_cons trivial all_nil))
+      (all_map fun _ _ => fileOk_of_not_file (fun _ => by simp))) (waveParams_file _ _ _ _ _))
       (all_ite (all_flatMap fun g _ => all_append (typeToks_file _ _ _ _ _)
         (all_cons (fileOk_of_not_file (fun _ => by simp)) all_nil)) all_nil))
       (bodyToks_file _ _ _ _ _)) (all_cons trivial all_nil)
@@ -416,14 +447,15 @@ theorem mslEpilogue_file (t : Target) (names : List Named) (p : Program) : All (
         (all_flatMap fun g _ => all_append (typeToks_file _ _ _ _ _)
           (all_cons (fileOk_of_not_file (fun _ => by simp)) all_nil))) (all_cons trivial all_nil)
     · unfold wrapperParams
-      refine all_append ?_ (all_flatMap fun i _ => all_cons trivial (all_cons trivial all_nil))
+      refine all_append (all_append ?_ (all_flatMap fun i _ => all_cons trivial (all_cons trivial all_nil)))
+        (waveParams_file _ _ _ _ _)
       split
       · exact all_cons (fileOk_of_not_file (fun _ => by simp)) all_nil
       · exact all_nil
     · unfold wrapperLocals
       exact all_flatMap fun g _ => all_ite all_nil (all_cons (fileOk_of_not_file (fun _ => by simp)) all_nil)
     · unfold wrapperCall
-      refine all_append (all_append (all_cons trivial all_nil) ?_) ?_
+      refine all_append (all_append (all_append (all_cons trivial all_nil) ?_) (waveArgs_file _ _ _ _ _)) ?_
       · split
         · exact all_cons trivial all_nil
         · exact all_nil
